@@ -121,7 +121,7 @@ def evalS (ε : Env) : Expr CFloat → Info → Option (List CFloat × Info)
     match evalS ε e i with
     | none => none
     | some (vs, i) => match op with
-      | .minus => some (vs.map CFloat.neg, i)
+      | .minus => some (vs.map (CFloat.sub (0.0, 0.0)), i)   -- `negate` (mod.rs:424)
       | .plus => some (vs, i)
   | .var n, i => (ε.rho n).map fun v => ([v], noteScale i v)
   | .address r, i =>
@@ -189,6 +189,7 @@ instance : SimpScalar XF where
   eqv a b := SimpScalar.eqv a.v b.v
   nan := ⟨SimpScalar.nan⟩
   two := ⟨SimpScalar.two⟩
+  negOne := ⟨SimpScalar.negOne⟩
 
 /-- the simplifier with exact zero/one tests -/
 def simplifyExact (amb : List CFloat) (e : Expr CFloat) : Expr CFloat :=
@@ -231,6 +232,15 @@ def pairUp : List (Option CFloat) → List (Option CFloat × Option CFloat)
   | a :: b :: rest => (a, b) :: pairUp rest
   | _ => []
 
+/-- Prefix minus evaluates as `0 - v` (`negate`, mod.rs:424, since a634ce0).  Rewriting `-e` to `0 - e` before calling
+the shared evaluator makes this driver independent of which negation `QV.Shared.CFloat.neg` currently implements. -/
+def negToSub : Expr CFloat → Expr CFloat
+  | .call f e => .call f (negToSub e)
+  | .bin l o r => .bin (negToSub l) o (negToSub r)
+  | .pre .minus e => .bin (.number (0.0, 0.0)) .minus (negToSub e)
+  | .pre .plus e => .pre .plus (negToSub e)
+  | e => e
+
 /-- the shared evaluator against the implementation's value: 0 different, 1 close, 2 bit-identical -/
 def cmpVal (m : Except EvalError CFloat) (i : Option CFloat) : Nat :=
   match m, i with
@@ -265,7 +275,7 @@ def handle (inp out : Sexp) : CaseResult :=
           let c := cmpTree mTree o
           -- the shared evaluator reproduces the implementation's values
           let evs := (envs.zip pairs).map fun (ε, (vo, vs)) =>
-            min (cmpVal (eval ε.rho ε.mu e) vo) (cmpVal (eval ε.rho ε.mu o) vs)
+            min (cmpVal (eval ε.rho ε.mu (negToSub e)) vo) (cmpVal (eval ε.rho ε.mu (negToSub o)) vs)
           let evalAgree := evs.all (· > 0)
           let agree := c > 0 && evalAgree
           -- the specification on the implementation's output
@@ -277,7 +287,7 @@ def handle (inp out : Sexp) : CaseResult :=
           -- known-finding classifiers (only when every failing clause is explained by one finding)
           -- counterfactuals: the same simplifier without the arm `0^e => 0` / with exact `is_zero`, `is_one`
           let passesWith (x : Expr CFloat) : Bool := (envs.zip pairs).all fun (ε, (vo, _)) =>
-            valueVerdict ε e x vo ((eval ε.rho ε.mu x).toOption) != .fail
+            valueVerdict ε e x vo ((eval ε.rho ε.mu (negToSub x)).toOption) != .fail
           let kfZeroPow := !valueOk && c > 0 && log.contains .powZeroBase && passesWith (simplifyNoZP amb e)
           let kfTol := !valueOk && c > 0 && !kfZeroPow && passesWith (simplifyExact amb e)
           let kfBoth := !valueOk && c > 0 && !kfZeroPow && !kfTol && log.contains .powZeroBase &&
